@@ -794,6 +794,8 @@ impl<BE: DecryptWriteBackend> FileWriterHandle<BE> {
     }
 
     fn index(&self, index: IndexPack) -> RusticResult<()> {
+        #[cfg(feature = "verif-hooks")]
+        crate::verif::sched_point("index-pack", index.id.to_hex().as_str());
         self.indexer.write().unwrap().add(index)?;
         Ok(())
     }
